@@ -475,12 +475,15 @@ const basePrelude = `
 (define-fun min_ ((x Int) (y Int)) Int (ite (< x y) x y))
 (define-fun max_ ((x Int) (y Int)) Int (ite (< x y) y x))
 (declare-fun itoa (Int) Str)
+(declare-fun bytes2str ((Array Addr Int) Slice) Str)
 ; address arithmetic is kept behind function symbols so that quantifier patterns over fld/idx/selem match
 ; syntactically; the definitions are instantiated on demand
 (assert (forall ((a Addr) (k Int)) (! (= (fld a k) (loc (oid a) (pfld (path a) k))) :pattern ((fld a k)))))
 (assert (forall ((a Addr) (i Int)) (! (= (idx a i) (loc (oid a) (pidx (path a) i))) :pattern ((idx a i)))))
 (assert (forall ((s Slice) (i Int)) (! (= (selem s i) (loc (oid (sarr s)) (pidx (path (sarr s)) (+ (soff s) i)))) :pattern ((selem s i)))))
 (declare-fun errstr (Iface) Str)
+(declare-fun sentinel (Iface) Bool)
+(assert (forall ((s Str)) (! (and (>= (len s) 0) (<= (len s) 4611686018427387904)) :pattern ((len s)))))
 `
 
 // strlit axioms: length and bytes
